@@ -450,6 +450,21 @@ class Check:
 
     # ---- stage 1: proofs
     def proofs(self, dirs: list[str], extra_property_files: list[str] | None = None, gen_lemmas: list[str] | None = None):
+        # models regenerated from the Python source (harness/props/<id>_gen.py), fail closed: a source that no longer fits the
+        # translated subset is a broken tie; a semantic edit makes the Gen*_eq theorems of the property fail to check
+        if "regenerated_model" not in self.stages:
+            import importlib
+
+            try:
+                gen = importlib.import_module(f"harness.props.{self.prop.lower()}_gen")
+            except ModuleNotFoundError:
+                gen = None
+            if gen is not None:
+                try:
+                    self.stages["regenerated_model"] = gen.regenerate()
+                except Exception as exc:
+                    self.broken.append({"kind": "translator", "what": f"the source no longer fits the translated subset ({self.prop.lower()}_gen)",
+                                        "detail": f"{type(exc).__name__}: {exc}"})
         ok, out = make_all(clean=(self.tier == 'thorough' and os.environ.get('VERIF_CLEAN') == '1'), prop=self.prop, dirs=dirs)
         self.checker_cmd = (
             f"cd /verif/coq && coq_makefile -f _CoqProject -o Makefile && make -j16 (full .vo build); "
@@ -461,6 +476,9 @@ class Check:
         if bad:
             self.broken.append({"kind": "hygiene", "what": "forbidden vernacular", "detail": bad})
         files = [None] + (extra_property_files or [])
+        gen_props = f"{self.prop}/GenProperties_{self.prop}.v"      # theorems tying regenerated kernels to the hand-written model
+        if (THEORIES / gen_props).exists() and gen_props not in files:
+            files.append(gen_props)
         for rel in files:
             res = check_properties_file(self.prop, rel)
             self.obligations += res["theorems"]
